@@ -268,6 +268,27 @@ pub fn c09(cx: &mut Ctx) {
             }
         }
     }
+    // every close condition at once: HTTP/1.0, Connection: close sent, Expect refused, Connection: close received,
+    // close-delimited body — the flow is driven to its end and asked for its verdict
+    for (m, hd) in [("POST", "HTTP/1.1 403 No\r\nConnection: close\r\n\r\n"), ("POST", "HTTP/1.0 500 E\r\nconnection: close\r\nX: y\r\n\r\n"), ("PUT", "HTTP/1.1 200 OK\r\nConnection: close\r\n\r\n")] {
+        for reqv in ["HTTP/1.0", "HTTP/1.1"] {
+            if reqv == "HTTP/1.0" && m == "PUT" { continue; }
+            cx.case("five");
+            let req = format!("{} {} http://a.test/p {}", m, reqv, super::hdrs(&[("connection", b"close"), ("expect", b"100-continue"), ("content-length", b"3")]));
+            if cx.rec.new_flow(&req) != "ok" { continue; }
+            cx.op("proceed"); cx.op("write 1000"); cx.op("proceed");
+            let mut stream = hd.as_bytes().to_vec();
+            stream.extend_from_slice(b"rest of it");
+            if cx.rec.state() == "await100" { cx.op(&format!("read100 {}", hx(&stream))); cx.op("keep100"); cx.op("proceed"); }
+            if cx.rec.state() == "sendBody" { cx.op("bwrite 616263 100"); cx.op("proceed"); }
+            cx.op(&format!("resp {}", hx(&stream)));
+            cx.op("canproceed");
+            cx.op("proceed");
+            if cx.rec.state() == "recvBody" { cx.op(&format!("bread {} 100", hx(b"rest of it"))); cx.op("canproceed"); cx.op("proceed"); }
+            cx.op("close?");
+            cx.op("reason");
+        }
+    }
     // a second hop: the flow as_new_flow returns is used to completion (request with repeated / list-valued
     // fields among those a redirect drops)
     for req in ["GET HTTP/1.1 http://a.test/ 3 cookie 613d31 cookie 623d32 x-a 31",
@@ -359,6 +380,16 @@ pub fn c10(cx: &mut Ctx) {
                     c10_exchange(cx, &req, 0, head.as_bytes());
                 }
             }
+        }
+    }
+    // status codes on the class boundaries with no framing at all: only 3xx may go without a body
+    for status in [199u16, 200, 299, 300, 304, 399, 400, 401, 499, 500, 599, 999] {
+        for reqv in ["HTTP/1.1"] {
+            cx.case("edge");
+            let head = format!("HTTP/1.1 {} S\r\nX: y\r\n\r\n", status);
+            let mut stream = head.into_bytes();
+            stream.extend_from_slice(b"tail");
+            c10_exchange(cx, &format!("GET {} http://a.test/p 0", reqv), 0, &stream);
         }
     }
     // a close-delimited body that the caller never reads (the peer closed right after the head, or the body is
